@@ -936,6 +936,11 @@ func Run(c *ev.Ctx) int {
 		defer wg.Done()
 		laneRefusedOwnerChange(c, proxyExtraEnv)
 	}()
+	wg.Add(1)
+	go func() {
+		defer wg.Done()
+		laneCreateAgain(c, proxyExtraEnv)
+	}()
 	ch := make(chan job)
 	for w := 0; w < workers; w++ {
 		wg.Add(1)
